@@ -398,6 +398,17 @@ def _prov(ctx, p, r_prov):
                             ok=ok, site=b.loc(bi))
                 if not ok:
                     r_prov.violations.append(Violation('C01', 'C01.prov', b.path, 'push', why, loc=b.loc(bi), ordinal=n))
+        # a path collected lazily: `.. .map(|i| CONT[i].state.clone()).collect::<Vec<S>>()`
+        for bi, t in b.calls():
+            if t['func'].get('path') != 'std::iter::Iterator::collect' or not user_call(b, bi) or t['dest']['p']:
+                continue
+            if 'std::vec::Vec<S>' not in b.local_ty(t['dest']['l']):
+                continue
+            n += 1
+            ok, why = _collected_origin_ok(ctx, p, b, fn, fn.arg_terms(t, 0, bi), param_obls)
+            r_prov.inst('%s: path states collected at %s are node / start states' % (b.path, b.loc(bi)), ok=ok, site=b.loc(bi))
+            if not ok:
+                r_prov.violations.append(Violation('C01', 'C01.prov', b.path, 'collect', why, loc=b.loc(bi), ordinal=n))
         # every other way an element can enter a Vec<S>: extend / append / insert / resize / .. and `v[i] = x`
         for bi, t in b.calls():
             path = t['func'].get('path') or ''
@@ -496,6 +507,11 @@ def _elements_origin_ok(ctx, p, b, fn, src, param_obls, depth=0):
             continue                        # the states of a path built by a path extractor of this crate
         if n[0] == 'call' and n[1] in ('std::vec::Vec::<T>::new', 'std::vec::Vec::<T>::with_capacity'):
             continue                        # a vector built here: what is pushed into it is checked at the pushes
+        if n[0] == 'call' and n[1] == 'std::iter::Iterator::collect' and n[2]:
+            ok, why = _collected_origin_ok(ctx, p, b, fn, n[2][0], param_obls)     # a lazily collected vector of node states
+            if not ok:
+                return ok, why
+            continue
         if n[0] == 'agg' and n[2] == 'None':
             continue
         if n[0] == 'agg' and n[2] == 'Some' and n[3]:
@@ -508,6 +524,49 @@ def _elements_origin_ok(ctx, p, b, fn, src, param_obls, depth=0):
             return False, 'elements with origin %s (not the states of an extracted path, not node / start states) are added to the ' \
                           'returned path' % fmt_terms(T(n))[:100]
     return True, ''
+
+
+def _collected_origin_ok(ctx, p, b, fn, src, param_obls):
+    """the elements of a lazily collected path: the innermost `map` closure must return (a clone of) the state of a node of a
+    planner container read through what the closure captured (self, or the node slice handed to a helper)"""
+    sfs = {c['state_field'] for c in p['containers'].values()}
+    for _ in range(6):
+        if len(src) != 1:
+            break
+        q = next(iter(src))
+        if q[0] == 'call' and q[1].rsplit('::', 1)[-1] in ('rev', 'into_iter', 'inspect', 'skip', 'take', 'cloned', 'copied') and q[2]:
+            src = q[2][0]
+            continue
+        if q[0] == 'call' and q[1] == 'std::iter::Iterator::map' and len(q[2]) == 2 and len(q[2][1]) == 1 and next(iter(q[2][1]))[0] == 'closure':
+            cl = next(iter(q[2][1]))
+            cb = ctx.core.body(cl[1])
+            if cb is None:
+                break
+            cf = ctx.fn(cb)
+            rt = set()
+            for rb in cf.return_blocks():
+                rt |= cf.local_terms(0, (rb, cf.nstmts(rb)))
+            caps = cl[2]
+
+            def resolve(ts, depth=0):
+                # closure-environment reads -> what was captured
+                out = set()
+                for n in ts:
+                    if n[0] == 'field' and n[2].isdigit() and n[1] and all(z[0] == 'param' and z[1] == 1 for z in n[1]) and int(n[2]) < len(caps):
+                        out |= set(caps[int(n[2])])
+                    elif n[0] in ('field',) and depth < 6:
+                        out.add((n[0], frozenset(resolve(n[1], depth + 1)), n[2]))
+                    elif n[0] == 'index' and depth < 6:
+                        out.add((n[0], frozenset(resolve(n[1], depth + 1)), n[2]))
+                    elif n[0] in ('clone', 'unwrap') and depth < 6:
+                        out.add((n[0], frozenset(resolve(n[1], depth + 1))))
+                    else:
+                        out.add(n)
+                return out
+            x = frozenset(resolve(rt))
+            return _state_origin_ok(ctx, p, b, x, param_obls)
+        break
+    return False, 'the collected path states are not produced by a map over node indices that reads the nodes\' states (unrecognised shape)'
 
 
 def _state_origin_ok(ctx, p, b, x, param_obls):
